@@ -269,7 +269,7 @@ func (h *H) validDecode(g *G) (step, bool) {
 		switch h.r.Intn(4) {
 		case 0:
 			c := &fakeConn{}
-			if (&remoting.Handshake{AdvertiseAddr: "node-" + g.str()[:0] + "a:1"}).Send(c) == nil {
+			if (&remoting.Handshake{AdvertiseAddr: "node-a:1"}).Send(c) == nil {
 				return step{op: 9, bs: c.written}, true
 			}
 		case 1:
